@@ -48,7 +48,8 @@ type C06Case struct {
 	Term     uint64 `json:"term"`
 	VoteTerm uint64 `json:"vote_term"`
 	VoteCand string `json:"vote_cand"`
-	LogLen   int    `json:"log_len"` // entries after the configuration entry
+	LogLen   int    `json:"log_len"`             // entries after the configuration entry
+	Compact  bool   `json:"compacted,omitempty"` // the whole log is covered by a snapshot and compacted away (TrailingLogs=0)
 	Msgs     []VMsg `json:"msgs"`
 	FaultAt  int    `json:"fault_at"`   // ordinal of the stable-store write to disturb (0 = none)
 	Mode     int    `json:"fault_mode"` // sim.Decision
@@ -76,6 +77,17 @@ func c06Seed(c C06Case) (Seed, []string) {
 		}
 	} else {
 		s.Term, s.VoteTerm, s.VoteCand = 0, 0, ""
+	}
+	if c.Compact && len(s.Log) > 0 {
+		n := uint64(len(s.Log))
+		s.Snap = &SnapSeed{Index: n, Term: s.Log[n-1].Term, Config: cfg, ConfigIndex: 1}
+		for i := 1; i < len(s.Log); i++ {
+			if p := s.Log[i].Payload; p != 0 {
+				s.Snap.State.Fold(uint64(i+1), s.Log[i].Term, p)
+			}
+		}
+		s.Compacted = s.Log
+		s.Log = nil
 	}
 	return s, []string{"a", "b", "c", "n", "x"}
 }
@@ -116,6 +128,9 @@ func c06Run(c C06Case) c06Result {
 	if in.R == nil {
 		res.viol = append(res.viol, fmt.Sprintf("R3|C06/R3/newraft-fails|NewRaft failed: %v %v", in.StartErr, in.StartPanic))
 		return res
+	}
+	if seed.Compacted != nil {
+		seed.Log = seed.Compacted // the reference below reasons about the history, wherever it is stored
 	}
 	lastIdx, lastTerm := uint64(len(seed.Log)), uint64(0)
 	if n := len(seed.Log); n > 0 {
@@ -309,6 +324,7 @@ type c06State struct {
 	VoteTerm uint64
 	VoteCand string
 	LogLen   int
+	Compact  bool
 }
 
 func c06States() []c06State {
@@ -321,19 +337,23 @@ func c06States() []c06State {
 		}
 	}
 	out = append(out, c06State{Cfg: "absent", LogLen: 1}, c06State{Cfg: "absent", VoteTerm: 3, VoteCand: "a", LogLen: 1}, c06State{Cfg: "empty"})
+	// the server's newest entries live only in its snapshot (log store empty after compaction)
+	out = append(out, c06State{Cfg: "member", LogLen: 2, Compact: true}, c06State{Cfg: "member", VoteTerm: 2, VoteCand: "a", LogLen: 2, Compact: true})
 	return out
 }
 
-func c06Report(r *rep.Report, c C06Case, v string) {
+func c06Report(r *rep.Report, c C06Case, v string) { c06ReportAs(r, "C06", c, v) }
+
+func c06ReportAs(r *rep.Report, prop string, c C06Case, v string) {
 	var rule, sig, detail string
 	fmt.Sscanf(v, "%s", &rule)
 	parts := splitN(v, "|", 3)
 	rule, sig, detail = parts[0], parts[1], parts[2]
-	path := fmt.Sprintf("%s/C06-%s-%d.json", rep.ReplayDir(), sanitize(sig), os.Getpid())
-	b, _ := json.MarshalIndent(map[string]any{"property": "C06", "engine": "solo", "test": "TestC06Replay", "case": c,
+	path := fmt.Sprintf("%s/%s-%s-%d.json", rep.ReplayDir(), prop, sanitize(sig), os.Getpid())
+	b, _ := json.MarshalIndent(map[string]any{"property": prop, "engine": "solo", "test": "TestC06Replay", "case": c,
 		"verdict": map[string]string{"rule": rule, "signature": sig, "detail": detail}}, "", " ")
 	_ = os.WriteFile(path, b, 0o644)
-	r.Violate("C06", rule, sig, c.String()+": "+detail, path)
+	r.Violate(prop, rule, sig, c.String()+": "+detail, path)
 }
 
 func TestC06Enumerate(t *testing.T) {
@@ -358,7 +378,7 @@ func TestC06Enumerate(t *testing.T) {
 				if n%shards != shard {
 					continue
 				}
-				base := C06Case{CfgKind: st.Cfg, Term: 3, VoteTerm: st.VoteTerm, VoteCand: st.VoteCand, LogLen: st.LogLen, Msgs: append([]VMsg(nil), msgs...)}
+				base := C06Case{CfgKind: st.Cfg, Term: 3, VoteTerm: st.VoteTerm, VoteCand: st.VoteCand, LogLen: st.LogLen, Compact: st.Compact, Msgs: append([]VMsg(nil), msgs...)}
 				var br c06Result
 				sim.Bubble(t, func() { br = c06Run(base) })
 				r.CaseDistinct(false, "fault-free")
@@ -418,9 +438,23 @@ func genVMsg(t *rapid.T) VMsg {
 	return m
 }
 
-func TestC06Random(t *testing.T) {
-	r := rep.New("C06", "random")
-	r.Extra("test", "TestC06Random")
+func TestC06Random(t *testing.T) { c06Random(t, "C06", "TestC06Random", nil) }
+
+// TestC01Votes / TestC03Votes run the same generated vote scenarios and judge
+// the rule each of those properties rests on: one grant per term (C01), and no
+// grant to a candidate whose log is behind the voter's (C03: leader completeness).
+func TestC01Votes(t *testing.T) {
+	c06Random(t, "C01", "TestC01Votes", map[string]string{"C06/R1/two-candidates-granted-in-one-term": "R3|C01/R3/two-candidates-granted-in-one-term"})
+}
+func TestC03Votes(t *testing.T) {
+	c06Random(t, "C03", "TestC03Votes", map[string]string{"C06/R2/vote-granted-to-candidate-with-stale-log": "R1|C03/R1/vote-granted-to-candidate-with-stale-log"})
+}
+
+// c06Random: remap == nil keeps every rule under C06; otherwise only the listed
+// signatures count, renamed to the rule/signature given.
+func c06Random(t *testing.T, prop, test string, remap map[string]string) {
+	r := rep.New(prop, "votes")
+	r.Extra("test", test)
 	defer r.Flush()
 	states := c06States()
 	rapid.Check(t, func(rt *rapid.T) {
@@ -430,7 +464,7 @@ func TestC06Random(t *testing.T) {
 		if !c06Legit(msgs) {
 			rt.Skip("illegitimate: one candidate, one term, two log claims")
 		}
-		c := C06Case{CfgKind: st.Cfg, Term: 3, VoteTerm: st.VoteTerm, VoteCand: st.VoteCand, LogLen: st.LogLen, Msgs: msgs,
+		c := C06Case{CfgKind: st.Cfg, Term: 3, VoteTerm: st.VoteTerm, VoteCand: st.VoteCand, LogLen: st.LogLen, Compact: st.Compact, Msgs: msgs,
 			FaultAt: rapid.IntRange(0, 8).Draw(rt, "faultAt"), Mode: rapid.IntRange(1, 3).Draw(rt, "mode")}
 		var res c06Result
 		sim.Bubble(t, func() { res = c06Run(c) })
@@ -438,10 +472,18 @@ func TestC06Random(t *testing.T) {
 		if res.faulted && res.grants > 0 && len(msgs) <= 4 {
 			r.Sample(c.String())
 		}
-		if len(res.viol) > 0 {
-			c06Report(r, c, res.viol[0])
+		for _, v := range res.viol {
+			if remap != nil {
+				parts := splitN(v, "|", 3)
+				to, ok := remap[parts[1]]
+				if !ok {
+					continue
+				}
+				v = to + "|" + parts[2]
+			}
+			c06ReportAs(r, prop, c, v)
 			r.Freeze()
-			rt.Fatalf("%s", res.viol[0])
+			rt.Fatalf("%s", v)
 		}
 	})
 }
